@@ -15,3 +15,7 @@ package csproto
 //@   trusted delegates to the protobuf runtimes' SetExtension; modelled as a write of the ghost slot of (msg, ext)
 //@   ensures implies(err == nil, gocv_extSlot(msg, ext).val == val && gocv_extSlot(msg, ext).err == nil)
 //@   modifies *gocv_extSlot(msg, ext)
+
+//@ func HasExtension(msg interface{}, ext interface{}) (has bool)
+//@   trusted delegates to the protobuf runtimes' HasExtension; modelled as a read of the ghost slot of (msg, ext)
+//@   ensures has == gocv_extSlot(msg, ext).has
